@@ -20,12 +20,14 @@ def run_C19(ctx, rep):
     lib_rules.check_L6(ctx, rep)
     lib_rules.check_L7(ctx, rep)
     lib_rules.check_L13(ctx, rep)
+    lib_rules.check_L27(ctx, rep)
 
 
 def run_C20(ctx, rep):
     lib_rules.check_L8(ctx, rep)
     agg_rules.check_L9(ctx, rep, ['c_rel_no_index'])
     rep.floor('L9', 2, 'shard indexing in CRelNoIndex')
+    lib_rules.check_L27(ctx, rep)
 
 
 def run_C10(ctx, rep):
